@@ -404,3 +404,22 @@ func (g *Gen) Soup(d int) *Node {
 	}
 	return NullN()
 }
+
+// DeepTree returns an untagged object nested `depth` levels deep whose objects
+// hold several members in non-sorted key order with non-canonical number
+// literals (for the "nothing outside the zones is altered" monitor: a parser
+// that falls back to another representation beyond some depth shows here).
+func (g *Gen) DeepTree(depth int) *Node {
+	inner := ObjN("zeta", NumN("1.50"), "alpha", StrN(g.Token()), "mid", ArrN(NumN("1E+5"), ObjN("y", IntN(1), "b", NumN("9007199254740993"))), "Beta", NullN())
+	for i := depth; i > 0; i-- {
+		switch {
+		case i%10 == 0:
+			inner = ObjN(fmt.Sprintf("z%d", i), NumN("-0.0"), "d", inner, fmt.Sprintf("a%d", i), StrN("v"))
+		case i%7 == 0:
+			inner = ObjN("d", ArrN(inner, IntN(i)))
+		default:
+			inner = ObjN("d", inner)
+		}
+	}
+	return inner
+}
